@@ -117,6 +117,34 @@ def run(ctx):
     recs = run_states(ctx, states, rng, jmax)
     ctx.traces += len(states)
     run_batches(ctx, recs, rng, 60 if quick else 600)
+    # degenerate rotations on a much finer exact angle set (rotations about z by "any" angle)
+    r = tlc.run('lie/MC_Gimbal.tla', 'lie/MC_Gimbal.cfg', dump=True, timeout=3000)
+    ctx.add_model('MC_Gimbal', r)
+    gst = list(tlc.parse_dump(r))
+    G = numqi.group
+    for st in gst:
+        obs, ang = st['obs'], st['ang']
+        U = gmat(obs['U'], obs['den'])
+        R = np.array(obs['R'], dtype=float) / obs['den'] ** 2
+        kind = 'beta=pi' if ang['pi'] else 'beta=0'
+        data = dict(alpha_half=ang['a'], gamma_half=ang['g'], kind=kind)
+        ctx.case(('gimbal', tuple(ang['a']), tuple(ang['g']), ang['pi']))
+        try:
+            a3, b3, g3 = G.su2_to_angle(U)
+            U3 = G.angle_to_su2(a3, b3, g3)
+            if not np.all(np.isfinite([a3, b3, g3])) or min(np.abs(U3 - U).max(), np.abs(U3 + U).max()) > 1e-7:
+                ctx.violation('C15:su2_to_angle:fine-grid:%s' % kind, 'extracted Euler angles are not finite / do not rebuild the SU(2) element [%s]' % kind, dict(data, angles=[float(a3), float(b3), float(g3)]))
+            a2, b2, g2 = G.so3_to_angle(R)
+            if not np.all(np.isfinite([a2, b2, g2])) or np.abs(G.angle_to_so3(a2, b2, g2) - R).max() > 1e-7:
+                ctx.violation('C15:so3_to_angle:fine-grid:%s' % kind, 'extracted Euler angles are not finite / do not rebuild the rotation [%s]' % kind, data)
+            if np.abs(G.su2_to_so3(U) - R).max() > 1e-9:
+                ctx.violation('C15:su2_to_so3:fine-grid:%s' % kind, 'image differs', data)
+            D1 = G.get_su2_irrep(1, U)
+            if not np.all(np.isfinite(D1)) or np.abs(D1 - U).max() > 1e-7:
+                ctx.violation('C15:get_su2_irrep:fine-grid:%s' % kind, 'spin-1/2 matrix of U is not U', data)
+        except Exception as ex:
+            ctx.violation('C15:exception:fine-grid:%s' % kind, type(ex).__name__ + ': ' + str(ex)[:160], data)
+    ctx.traces += len(gst)
     # representation property at exact products (numerical; both factors anchored exactly above)
     G = numqi.group
     for t in range(40 if quick else 400):
